@@ -91,7 +91,7 @@ impl Out {
     /// the name the library gave the database of the k-th file, against the model's `libDbName`
     fn libname(&mut self, path: &str, k: usize, actual: &str) {
         writeln!(self.cases, "libname {} {}", enc::hx(path), k).unwrap();
-        writeln!(self.imp, "{}", enc::hx(actual)).unwrap();
+        writeln!(self.imp, "name {}", enc::hx(actual)).unwrap();
         writeln!(self.tags, "c17lib database name").unwrap();
         writeln!(self.expect, "-").unwrap();
         self.n += 1;
@@ -502,7 +502,7 @@ fn replay_line(line: &str) -> String {
         "testdir" => script::run_testdir_probe(t[1].parse().unwrap_or(2)),
         // the recorded event log is the replay (the tag names the seeds that regenerate the run)
         "libmon" => "accept".into(),
-        "libname" => libpar::replay_name(&enc::unhx(t[1]), t[2].parse().unwrap_or(0)),
+        "libname" => format!("name {}", libpar::replay_name(&enc::unhx(t[1]), t[2].parse().unwrap_or(0))),
         _ => "unknown-op".into(),
     }
 }
